@@ -94,6 +94,7 @@ def run(tier):
             nparts = 48
 
             def a_jobs():
+                yield {"cmd": "custom", "method": "foreign_strength", "args": {}, "id": "foreign_strength", "timeout": 900, "must": True}
                 for part in range(nparts):
                     yield {"cmd": "custom", "method": "sweep", "args": {"part": part, "nparts": nparts},
                            "id": "sweep%d" % part, "timeout": 900, "must": True}
@@ -111,6 +112,13 @@ def run(tier):
                     return
                 if res.get("status") == "error":
                     agg.errors.append(res.get("error", "?")[-1500:])
+                    return
+                if job.get("id") == "foreign_strength":
+                    foreign["strength"] = {k: res.get(k) for k in ("items", "differing", "differing_per_chunk", "ctor_exc")}
+                    if res.get("foreign"):
+                        foreign.update(res["foreign"])
+                    if not res.get("differing") or min(res.get("differing_per_chunk") or [0]) == 0:
+                        report.harness_errors.append("foreign-table fault is too weak to be observable: %s" % foreign["strength"])
                     return
                 if job["cmd"] == "custom":
                     sweep_info["cells"] += res.get("cells", 0)
@@ -159,9 +167,9 @@ def run(tier):
             "samples": agg.samples or ["(none)"],
             "static_clause": static_info,
             "sweep": dict(sweep_info, complete=sweep_complete,
-                          axes="state {valid, missing, stale_benign, stale_foreign, old_version, as_found} x {writable, unwritable(EACCES)} x 4 workload chunks"),
+                          axes="state {valid, missing, stale_benign, stale_foreign, old_version, as_found} x {writable, unwritable(EACCES)} x 4 workload chunks, plus each state once under python -O"),
             "foreign_table": foreign,
-            "faults_fired": {k: v for k, v in sorted(agg.stats.items()) if k.startswith("state_") or k.startswith("write_fault")},
+            "faults_fired": {k: v for k, v in sorted(agg.stats.items()) if k.startswith("state_") or k.startswith("write_fault") or k.startswith("interp_")},
             "probes": {k: agg.stats[k] for k in ("incarnations", "items_parsed", "outcomes_compared", "cache_rewritten",
                                                  "started_with_invalid_cache", "cache_repaired")},
             "transitions_seen": len(cells),
